@@ -293,6 +293,31 @@ def callLine (toks : List String) : Option String :=
     some s!"{jobs} | {",".intercalate (sizes.map toString)} | {",".intercalate (starts.map toString)}"
   | _ => none
 
+/-! ### simulator bookkeeping: `sim <fn> <args…>` -/
+
+def showStat (s : Stat) : String := s!"{s.count}:{showRat s.sum}:{showRat s.min}:{showRat s.max}:{showRat s.mean}"
+
+def simLine (toks : List String) : Option String :=
+  match toks with
+  | ["batches", n, b] => do
+    let n ← n.toNat?
+    let b ← b.toNat?
+    some (";".intercalate ((batchBounds n b).map fun p => s!"{p.1},{min p.2 n}"))
+  | "stats" :: rest => do
+    let arms ← parseNats? (← kv rest "arms")
+    let d ← parseNats? (← kv rest "d")
+    let r ← parseRats? (← kv rest "r")
+    some (";".intercalate ((armStats arms d r).map fun p => s!"{p.1}={showStat p.2}"))
+  | "eval" :: rest => do
+    let arms ← parseNats? (← kv rest "arms")
+    let d ← parseNats? (← kv rest "d")
+    let r ← parseRats? (← kv rest "r")
+    let p ← parseNats? (← kv rest "p")
+    let t ← parseRats? (← kv rest "t")
+    let train (a : Nat) : Rat := match arms.idxOf? a with | some i => t.getD i 0 | none => 0
+    some (";".intercalate ((evaluate arms d r p train).map fun q => s!"{q.1}={q.2.length}:{showRat q.2.sum}"))
+  | _ => none
+
 partial def loop (h : IO.FS.Stream) (out : IO.FS.Stream) (st : DState) : IO Unit := do
   let line ← h.getLine
   if line.isEmpty then return ()
